@@ -2,7 +2,12 @@
 import calendar
 import datetime
 
+import os
+import re
+import subprocess
+
 from vlib import build as B
+from vlib import core
 from vlib.core import Case
 
 ID = "C09"
@@ -31,6 +36,9 @@ TRUSTED_BASE = ["Coq 8.16.1 kernel (coqc), vm_compute only",
                 "civil_of_days stands for glibc gmtime_r: compared on every day 1970-01-01..2099-12-31 in every run",
                 "binary64 division/addition (round to nearest even) and glibc printf %.*f (exact decimal expansion, "
                 "ties to even) modelled in exact integer arithmetic; compared on every generated log case",
+                "thread-safety (re-entrancy) of the rendering/parsing path is established by the concurrent differential run "
+                "(class C) and, in the thorough tier, a ThreadSanitizer build of the same harness -- not by a theorem: the "
+                "Gallina model is a pure function and cannot exhibit a data race; the theorems are about the sequential codec",
                 "ocaml/prelude.ml + ocaml/c09_driver.ml (number/escape conversion), harness/h_c09.cpp, vlib",
                 "g++ 12 -fsanitize=address,undefined; the signed-integer-overflow check in recover mode for "
                 "the harness translation unit so that the wrapped result is observed"]
@@ -55,7 +63,11 @@ RULE = ("G: get_tm (gmtime_r) of EVERY day 1970-01-01..2099-12-31 against civil_
         "{0, 4*10^k, 5*10^k, 999999999-j, decimal ties, random} and second-of-minute in {0,58,59,random}; "
         "S: CALL SEQUENCES of the log renderer inside one harness process (it is specified as stateless): instants of the "
         "same minute with other seconds (ascending, descending, same), precisions mixed (9 then 0, 0 then 0, 3 then 0), both "
-        "use_gm values also interleaved, minute boundaries (:59, next :00, back), each call rendered independently by the model. "
+        "use_gm values also interleaved, minute boundaries (:59, next :00, back), each call rendered independently by the model; "
+        "C: CONCURRENT rendering: K = 2 and 4 real threads, each with its own Field objects and its own instants (own 30-year "
+        "band, own times of day), 400000 print()+string-constructor round trips per thread over all six field types, started "
+        "together and joined; per thread the number of renderings that differ from the single-threaded rendering of the same "
+        "instant must be 0 (thorough: the same harness also under ThreadSanitizer). "
         "non-trivial = day/instant in range and not the epoch (G, T), constructor returned ticks (P), nsec != 0 and dplaces > 0 (L); "
         "distinct = distinct case lines")
 
@@ -68,17 +80,48 @@ COMBOS = [(s, m) for s in SODS for m in MSS]
 EPOCH = datetime.date(1970, 1, 1)
 
 
+RUNTIME = ["f8utils.cpp", "modp_numtoa.c"]
+ENV = {"TZ": "UTC", "UBSAN_OPTIONS": "print_stacktrace=0:halt_on_error=0",
+       # no symbolizer: a trapping case (class "overrun") costs two process starts, not several seconds
+       "ASAN_OPTIONS": "detect_leaks=0:abort_on_error=0:halt_on_error=1:allocator_may_return_null=1:"
+                       "detect_stack_use_after_return=0:symbolize=0"}
+
+
 def build(tier):
-    exe = B.harness("h_c09", runtime=["f8utils.cpp", "modp_numtoa.c"],
-                    extra=["-fsanitize-recover=signed-integer-overflow"])
-    # halt_on_error=0: the two recover-mode checks report and continue; all other checks are compiled
+    # halt_on_error=0: the one recover-mode check reports and continues; all other checks are compiled
     # with -fno-sanitize-recover and still abort
-    # no symbolizer: a trapping case (class "overrun") costs two process starts, not several seconds
-    return {"impl": [exe],
-            "env": {"TZ": "UTC", "UBSAN_OPTIONS": "print_stacktrace=0:halt_on_error=0",
-                    "ASAN_OPTIONS": "detect_leaks=0:abort_on_error=0:halt_on_error=1:allocator_may_return_null=1:"
-                                    "detect_stack_use_after_return=0:symbolize=0"},
-            "batch_timeout": 1800}
+    exe = B.harness("h_c09", runtime=RUNTIME, extra=["-fsanitize-recover=signed-integer-overflow"])
+    built = {"impl": [exe], "env": ENV, "batch_timeout": 1800, "per_case_timeout": 300}
+    if tier == "thorough":
+        # the same harness under ThreadSanitizer, used for the concurrent class only
+        built["tsan"] = [B.harness("h_c09", variant="tsan", runtime=RUNTIME)]
+    return built
+
+
+def run_impl(built, cases, tier):
+    impl = core.run_lines(built["impl"], [c.line for c in cases], env=built.get("env"),
+                          per_case_timeout=built.get("per_case_timeout", 20),
+                          timeout_per_batch=built.get("batch_timeout", 900))
+    if "tsan" in built:
+        env = dict(os.environ, TZ="UTC", TSAN_OPTIONS="halt_on_error=0:report_signal_unsafe=0:exitcode=66")
+        for k, c in enumerate(cases):
+            if c.line.startswith("C ") and impl[k].startswith("K0="):
+                # fewer iterations: a data race is reported on its first occurrence, not on a lucky interleaving
+                w = c.line.split()
+                line = "C %d %s" % (min(int(w[1]), 20000), w[2])
+                try:
+                    p = subprocess.run(built["tsan"], input=(line + "\n").encode(), stdout=subprocess.PIPE,
+                                       stderr=subprocess.PIPE, timeout=600, env=env)
+                    err = p.stderr.decode(errors="replace")
+                    m = re.search(r"ThreadSanitizer: ([a-z ]+)", err)
+                    if m:
+                        site = re.search(r"#\d+ (\S+) (/[^\s:]+):(\d+)", err)
+                        impl[k] = "TSAN %s%s" % (m.group(1).strip(), (" in %s" % site.group(1)) if site else "")
+                    elif p.returncode != 0:
+                        impl[k] = "TSAN-RUN exit %d" % p.returncode
+                except subprocess.TimeoutExpired:
+                    impl[k] = "TSAN-RUN HANG"
+    return impl
 
 
 def day_of(y, m, d):
@@ -353,8 +396,34 @@ def gen_S(rng, tier):
     return cs
 
 
+def C(iters, lists, cls):
+    return Case("C %d %s" % (iters, ";".join(",".join(str(t) for t in l) for l in lists)), cls)
+
+
+def gen_C(rng, tier):
+    """K = 2 and 4 real threads rendering and parsing back their own instants at the same time; every thread
+    works in its own 30-year band with its own months, days and times of day, so that calendar fields leaking
+    from one thread into another cannot coincide."""
+    cs = []
+    thorough = tier == "thorough"
+    iters = 400000
+    for rep in range(6 if thorough else 2):
+        for k in (2, 4):
+            lists = []
+            for j in range(k):
+                lo = day_of(1971 + 30 * j, 1, 1)
+                band = []
+                for i in range(3):
+                    d = lo + rng.randrange(0, 29 * 365)
+                    sod = (j * 21600 + rng.randrange(1, 21600)) % 86400
+                    band.append(d * DAY_NS + sod * NS + rng.randrange(1000) * 10 ** 6 + rng.choice((0, 0, 999999)))
+                lists.append(band)
+            cs.append(C(iters, lists, "concurrent-%d" % k))
+    return cs
+
+
 def gen_cases(rng, tier):
-    cs = gen_G(rng, tier) + gen_T(rng, tier) + gen_P(rng, tier) + gen_L(rng, tier) + gen_S(rng, tier)
+    cs = gen_G(rng, tier) + gen_T(rng, tier) + gen_P(rng, tier) + gen_L(rng, tier) + gen_S(rng, tier) + gen_C(rng, tier)
     # trapping cases last: the harness is restarted after each, with nothing left to re-feed
     return [c for c in cs if c.cls != "overrun"] + [c for c in cs if c.cls == "overrun"]
 
@@ -378,6 +447,8 @@ def nontrivial(case, r):
         return 0 < int(w[1]) < DAYS
     if w[0] == "S":
         return len(w) >= 3
+    if w[0] == "C":
+        return w[2].count(";") >= 1
     return False
 
 
